@@ -3,6 +3,7 @@ CONSTANTS
   MaxInst = 3
   MaxWrappers = 3
   MaxDepth = 8
+  MaxMarks = 1
 INVARIANT AtMostOnce
 INVARIANT OnlyViaOwner
 INVARIANT OneOwner
